@@ -379,3 +379,50 @@ META["C20"] = {
     "LEVEL_NOTE": "Trusted: the recipes in checks/c20.py; controls guard against recipes that fail for unrelated reasons.",
     "TECHNIQUE": "fault enumeration: single-field argument corruption of valid call recipes across the three factorisations, with control entries",
 }
+
+META["C08"] = {
+    "LEVEL": "exploration",
+    "TIERS": {"quick": 160, "thorough": 6000},
+    "WALLCAP": {"quick": 420, "thorough": 5400},
+    "RULE": ("One evaluation = one seeded simulated workload (forced history with rejections and checkpoints through the real loop "
+             "or a fixed grid, any strategy / factorisation / calibration / prior, then sampling, both losses, off-grid marginals, "
+             "preconditioner removal) executed with every conditional / normal method of the three factorisations wrapped; each "
+             "executed operation with concrete operands is recomputed with the dense formulas on the embedded operands (1e-8). "
+             "Distinct = distinct (cell, history digest); non-trivial = at least 10 operations were checked."),
+    "COMPONENTS": {"real": ["Dense/Isotropic/BlockDiag LatentCond: marginalise, revert, merge, apply_flat, preconditioner_apply",
+                            "Dense/Isotropic/BlockDiag Normal: rescale_cholesky, logpdf, residual_whitened_rms, to_multivariate_normal",
+                            "cholesky_util.revert_conditional / sum_of_sqrtm_factors (through them)"],
+                   "stub": [], "seam": ["method wrappers installed for the duration of a run (in-run monitor)", "flow seam"]},
+    "PROBES": ["singular_covariance_reverts", "apply_flat_with_nonunit_scalings", "op_marginalise", "op_revert", "op_merge", "op_apply_flat",
+               "op_preconditioner_apply", "op_rescale_cholesky", "op_logpdf", "op_residual_whitened_rms", "op_to_multivariate_normal"],
+    "ASSUMPTIONS": ["partial: coverage is what simulated runs reach (q<=6, d<=3, the scalings h^k/k! of the preconditioner, singular "
+                    "factors from exact initial states); the direct quantifier of C08 (all shapes, all scalings 1e-12..1e12, batched "
+                    "variants) is NOT covered", "operations inside vmap (tracers) are not observed"],
+    "LEVEL_TEXT": "In-run invariant monitor: every Gaussian-algebra operation executed by seeded simulated runs is refined against "
+                  "the dense formulas. Partial by construction (reachable operands only).",
+    "LEVEL_NOTE": "Trusted: sim/embed.py and the dense formulas in sim/monitors.py (numpy float64; identities are chosen so that no "
+                  "cancellation occurs: joint-law form for revert).",
+    "TECHNIQUE": "deterministic simulation with an in-run invariant monitor on every conditional/normal operation of seeded solver histories",
+}
+
+META["C09"] = {
+    "LEVEL": "exploration",
+    "TIERS": {"quick": 160, "thorough": 6000},
+    "WALLCAP": {"quick": 420, "thorough": 5400},
+    "RULE": ("One evaluation = one seeded simulated run (forced history with rejections, checkpoints, dynamic/MLE/no calibration, "
+             "IWP / Ornstein-Uhlenbeck / Matern prior, three factorisations for IWP) during which every executed "
+             "prior.transition(dt, scale) is compared with the exact discretisation (1e-9 in Nordsieck coordinates; closed form or "
+             "50-digit Van-Loan expm); sub-transitions at every checkpoint split are merged and compared with the whole step; a "
+             "twin prior with base scale c*Lambda must scale the process noise by c^2. Distinct = distinct (cell, history digest); "
+             "non-trivial = at least 3 transitions were checked."),
+    "COMPONENTS": {"real": ["DenseWienerIntegrated / Isotropic / BlockDiag transition()", "DenseExponential.transition (Pade/Legendre order 9 + doubling)",
+                            "preconditioner_taylor", "system_matrices_1d_iwp / cholesky_hilbert", "LatentCond.merge (composition)"],
+                   "stub": [], "seam": ["transition() wrapper installed for the duration of a run (in-run monitor)", "flow seam"]},
+    "PROBES": ["transitions_checked", "exponential_prior", "q>=6", "checkpoint_splits_composed", "twin_base_scale"],
+    "ASSUMPTIONS": ["partial: step sizes and scales are those the simulated runs reach (h in [1e-4, 0.5], q<=8, d<=3, float64, "
+                    "Pade/Legendre order 9 only); orders 3/5/7/13 and float32 are unreachable through float64 solves and are NOT covered"],
+    "LEVEL_TEXT": "In-run invariant monitor: every prior discretisation executed by seeded simulated runs is compared with the exact "
+                  "SDE discretisation; composition is probed at checkpoint splits. Partial by construction.",
+    "LEVEL_NOTE": "Trusted: sim/refmodel.py priors (closed-form IWP, mp.expm Van-Loan).",
+    "TECHNIQUE": "deterministic simulation with an in-run invariant monitor on every prior transition of seeded solver histories; composition probes at checkpoint splits",
+}
